@@ -4,5 +4,5 @@
 import sys
 sys.path[:0] = ["/repo/pulser-core", "/repo/pulser-simulation", "/verif"]
 from symx.replay import replay
-sys.exit(replay(check='checks.c18', kernel='switch', shape={'program': 'retarget', 'sym': [], 'concrete': [['ryd_loc', 'clock_period', 2]], 'strict': True},
-                assignment={'buf#1.start': 0, 'buf#1.end': 20, 'buf#2.start': 0, 'buf#2.end': 21}, label='strict:identical_timeline'))
+sys.exit(replay(check='checks.c18', kernel='switch', shape={'program': 'eom_twice', 'device': 'virt_reuse', 'sym': [], 'concrete': [['ryd_glob', 'eom.intermediate_detuning', 6597.344572538565]], 'reusable': True, 'strict': True, 'param': True},
+                assignment={}, label='strict:identical_timeline'))
